@@ -1,15 +1,26 @@
 #!/bin/bash
-# run_seeds.sh [names...]: apply each seeded change to /repo, run the quick check of its property, undo it; result in seeded/<name>/result.txt
-cd /verif
-names="$@"; [ -z "$names" ] && names=$(ls seeded)
+# run_seeds.sh [names...]: apply each seeded change, run the quick check of its property, undo it; result in /verif/seeded/<name>/result.txt.
+# By default works on /verif and /repo themselves (do not edit either while it runs). With SEEDS_COPY=1 it works on a private copy of /verif
+# (/tmp/verif_seeds) and a scratch worktree of /repo at HEAD (/tmp/repo_seeds), removed afterwards; only result.txt files are written back.
+names="$@"; [ -z "$names" ] && names=$(ls /verif/seeded)
+V=/verif; R=/repo
+if [ -n "$SEEDS_COPY" ]; then
+  V=/tmp/verif_seeds; R=/tmp/repo_seeds
+  rm -rf $V; mkdir $V; rsync -a --exclude .git --exclude replays --exclude .lock /verif/ $V/
+  git -C /repo worktree remove --force $R 2>/dev/null; git -C /repo worktree add -q --detach $R HEAD || exit 1
+  sed -i "s#=> /repo#=> $R#" $V/harness/go.mod
+  export VERIF_REPO=$R
+fi
+cd $V
 for n in $names; do
   prop=${n%%-*}
-  [ -f seeded/$n/patch.diff ] || continue
-  if ! python3 -c "import sys; sys.path.insert(0,'lib'); import props; sys.exit(0 if '$prop' in props.PROPS else 1)"; then echo "$n: property $prop has no check yet" | tee seeded/$n/result.txt; continue; fi
-  if ! git -C /repo apply --check /verif/seeded/$n/patch.diff 2>/dev/null; then echo "$n: patch does not apply on current /repo" | tee seeded/$n/result.txt; continue; fi
-  git -C /repo apply /verif/seeded/$n/patch.diff
+  [ -f /verif/seeded/$n/patch.diff ] || continue
+  if ! python3 -c "import sys; sys.path.insert(0,'lib'); import props; sys.exit(0 if '$prop' in props.PROPS else 1)"; then echo "$n: property $prop has no check yet" | tee /verif/seeded/$n/result.txt; continue; fi
+  if ! git -C $R apply --check /verif/seeded/$n/patch.diff 2>/dev/null; then echo "$n: patch does not apply on current /repo" | tee /verif/seeded/$n/result.txt; continue; fi
+  git -C $R apply /verif/seeded/$n/patch.diff
   out=$(./check $prop quick 2>&1); rc=$?
-  git -C /repo checkout -- .
+  git -C $R checkout -- .
   v=$(echo "$out" | grep -c "^VIOLATION")
-  echo "$n: exit=$rc violations=$v $(echo "$out" | grep -m1 -A1 '^VIOLATION' | tr '\n' ' ' | cut -c1-300)" | tee seeded/$n/result.txt
+  echo "$n: exit=$rc violations=$v $(echo "$out" | grep -m1 -A1 '^VIOLATION' | tr '\n' ' ' | cut -c1-300)" | tee /verif/seeded/$n/result.txt
 done
+if [ -n "$SEEDS_COPY" ]; then cd /; rm -rf $V; git -C /repo worktree remove --force $R; fi
